@@ -247,6 +247,116 @@ func c12FindSchema(ss ast.Schemas, pkg string) *ast.Schema {
 	return nil
 }
 
+// c12LabRows: the rows of a built lab (cases with their source-valid documents).
+func c12LabRows(out *bufio.Writer, lab *Lab, cases []*LabCase, docs map[string][]JV, stats map[string]int) {
+	var reqs []LabReq
+	for _, c := range cases {
+		if !c.generated() || !c.GoOK {
+			continue
+		}
+		for _, d := range docs[c.ID] {
+			reqs = append(reqs, LabReq{c.ID, c.Defs.Root, "dec", []string{d.json()}})
+		}
+	}
+	rep := lab.GoCall(reqs)
+	ri := 0
+	for _, c := range cases {
+		switch {
+		case c.Defs == nil || len(c.Unsupported) > 0:
+			fmt.Fprintf(out, "-\tskip %s unsupported-by-format %s\tok\n", c.ID, labOneLine(strings.Join(c.Unsupported, ",")))
+			continue
+		case c.GenErr != "":
+			fmt.Fprintf(out, "-\tskip %s generr %s\tok\n", c.ID, labOneLine(c.GenErr))
+			continue
+		}
+		fmt.Fprintf(out, "-\tcase %s format=%s degraded=%v notes=%v src=%s\tok\n", c.ID, c.Format, c.Degraded, c.Notes, c.Defs.sexp())
+		skipDocs := func() {
+			if c.GoOK {
+				ri += len(docs[c.ID])
+			}
+		}
+		irJS, _, err := lab.labRun(c).chainIR("jsonschema")
+		if err != nil {
+			fmt.Fprintf(out, "-\tskip %s no-jsonschema-chain-ir %s\tok\n", c.ID, labOneLine(err.Error()))
+			skipDocs()
+			continue
+		}
+		schema := c12FindSchema(irJS, c.ID)
+		if schema == nil {
+			fmt.Fprintf(out, "-\tskip %s no-schema-for-package\tok\n", c.ID)
+			skipDocs()
+			continue
+		}
+		stats["cases"]++
+		fmt.Fprintf(out, "defschemas %s.js %s\tok\tok\n", c.ID, virSchemas(irJS))
+		jsText, oaText := c.EmittedJSONSchema(), c.EmittedOpenAPI()
+		fmt.Fprintf(out, "jsemit %s.js %s js\tok %s\t%s\n", c.ID, c.ID, c12Compact(jsText), c12VerdictJSONSchema(irJS, schema, jsText, true))
+		fmt.Fprintf(out, "jsemit %s.js %s oa\tok %s\t%s\n", c.ID, c.ID, c12Compact(oaText), c12VerdictOpenAPI(irJS, schema, oaText, true))
+		emitted, _ := parseJV(jsText)
+		refsOK := len(c12Unresolved(emitted, false)) == 0
+		defs, _ := c12Definitions(emitted, false)
+		present := true
+		schema.Objects.Iterate(func(_ string, o ast.Object) {
+			if _, ok := defs.get(o.Name); !ok {
+				present = false
+			}
+		})
+		fmt.Fprintf(out, "jswf %s.js %s\trefs=%v present=%v\tok\n", c.ID, c.ID, refsOK, present)
+		if !c.GoOK {
+			fmt.Fprintf(out, "-\tskip %s gocompile %s\tok\n", c.ID, labOneLine(c.GoCompileErr))
+			continue
+		}
+		fmt.Fprintf(out, "defschemas %s.go %s\tok\tok\n", c.ID, virSchemas(c.IRGo))
+		src, srcErr := c.RefValidator("")
+		ev, evErr := newRefValidator("jsonschema", string(jsText), c.Defs.Root)
+		for _, d := range docs[c.ID] {
+			dec := rep[ri]
+			ri++
+			if srcErr != nil || src.validate(d) != nil {
+				stats["doc-not-source-valid"]++
+				continue
+			}
+			if !strings.HasPrefix(dec, "ok ") {
+				stats["dec-error"]++ // C01's business
+				continue
+			}
+			got, perr := parseJV([]byte(strings.TrimPrefix(dec, "ok ")))
+			if perr != nil {
+				stats["reenc-invalid-json"]++
+				continue
+			}
+			stats["values"]++
+			impl, verdict := "valid", "ok"
+			if evErr != nil {
+				impl, verdict = "invalid", "FAIL emitted-schema-does-not-compile case="+c.ID+" "+shortErr(evErr)
+			} else if verr := ev.validate(got); verr != nil {
+				impl = "invalid"
+				ex := c12Explain(verr, emitted, got)
+				at := ""
+				if i := strings.Index(ex, " at="); i >= 0 {
+					at = strings.Fields(ex[i+4:])[0]
+				}
+				verdict = fmt.Sprintf("FAIL encoded-value-rejected format=%s src=%s %s case=%s", c.Format, c12SrcAt(c.Defs, at), ex, c.ID)
+				stats["values-rejected"]++
+			}
+			fmt.Fprintf(out, "jsvalid %s.js %s %s %s\t%s\t%s\t%s\n", c.ID, c.ID, c.Defs.Root, got.sexp(), impl, verdict, got.json())
+			fmt.Fprintf(out, "jshyp %s.go %s.js %s %s %s\tvalid=%v\tok\n", c.ID, c.ID, c.ID, c.Defs.Root, d.sexp(), impl == "valid")
+		}
+	}
+}
+
+// pinned lab cases: the recorded findings about encoded values, on real generated Go code
+var c12LabPinned = []struct {
+	id, defs string
+	docs     []string
+}{
+	{"any", `(defs "R" ("R" (struct (field "v" (any) true false -))))`, []string{`{"v":"text"}`, `{"v":12}`}},
+	{"requirednullable", `(defs "R" ("R" (struct (field "n" (int 64 true - -) true true -))))`, []string{`{"n":null}`, `{"n":4}`}},
+	{"const", `(defs "R" ("R" (struct (field "c" (const (s "fixed")) true false -) (field "n" (int 64 true - -) false false -))))`, []string{`{"c":"fixed"}`, `{"c":"fixed","n":3}`}},
+	{"plain", `(defs "R" ("R" (struct (field "s" (string 1 5 false) true false -) (field "k" (ref "E") false false -) (field "l" (array (int 64 true 0 9)) true false -))) ("E" (enumS "a" "b")))`,
+		[]string{`{"s":"ab","k":"b","l":[1,9]}`, `{"s":"abcde","l":[]}`}},
+}
+
 func init() {
 	register("c12-lab", func(args map[string]string, out *bufio.Writer) error {
 		args["python"] = "0"
@@ -255,102 +365,57 @@ func init() {
 			return err
 		}
 		defer b.lab.Close()
-		var reqs []LabReq
-		for _, c := range b.cases {
-			if !c.generated() || !c.GoOK {
-				continue
+		if path, ok := args["docfile"]; ok {
+			// replay: the documents of the file (one JSON document per line) instead of generated ones
+			var ds []JV
+			for _, l := range readLines(path) {
+				if v, err := parseJV([]byte(l)); err == nil {
+					ds = append(ds, v)
+				}
 			}
-			for _, d := range b.docs[c.ID] {
-				reqs = append(reqs, LabReq{c.ID, c.Defs.Root, "dec", []string{d.json()}})
+			for _, c := range b.cases {
+				b.docs[c.ID] = ds
 			}
 		}
-		rep := b.lab.GoCall(reqs)
-		ri := 0
 		stats := map[string]int{}
-		for _, c := range b.cases {
-			switch {
-			case c.Defs == nil || len(c.Unsupported) > 0:
-				fmt.Fprintf(out, "-\tskip %s unsupported-by-format %s\tok\n", c.ID, labOneLine(strings.Join(c.Unsupported, ",")))
-				continue
-			case c.GenErr != "":
-				fmt.Fprintf(out, "-\tskip %s generr %s\tok\n", c.ID, labOneLine(c.GenErr))
+		c12LabRows(out, b.lab, b.cases, b.docs, stats)
+		fmt.Fprintf(out, "-\tstats %v timings=%s constructs=%v docvariants=%v\tok\n", stats, fmtTimings(b.lab.Timings), b.hist, b.dhist)
+		return nil
+	})
+
+	register("c12-labpinned", func(args map[string]string, out *bufio.Writer) error {
+		opts := defaultLabOpts()
+		opts.NoPython = true
+		lab, err := NewLab(labWorkDir("c12pin"), opts)
+		if err != nil {
+			return err
+		}
+		defer lab.Close()
+		docs := map[string][]JV{}
+		var cases []*LabCase
+		for _, p := range c12LabPinned {
+			if only, ok := args["id"]; ok && only != p.id {
 				continue
 			}
-			fmt.Fprintf(out, "-\tcase %s format=%s degraded=%v notes=%v src=%s\tok\n", c.ID, c.Format, c.Degraded, c.Notes, c.Defs.sexp())
-			irJS, _, err := b.lab.labRun(c).chainIR("jsonschema")
+			d, err := parseDefsSexp(p.defs)
 			if err != nil {
-				fmt.Fprintf(out, "-\tskip %s no-jsonschema-chain-ir %s\tok\n", c.ID, labOneLine(err.Error()))
-				if c.GoOK {
-					ri += len(b.docs[c.ID])
-				}
-				continue
+				return err
 			}
-			schema := c12FindSchema(irJS, c.ID)
-			if schema == nil {
-				fmt.Fprintf(out, "-\tskip %s no-schema-for-package\tok\n", c.ID)
-				if c.GoOK {
-					ri += len(b.docs[c.ID])
+			for _, f := range labFormats {
+				c := lab.AddCase(d, f)
+				cases = append(cases, c)
+				for _, t := range p.docs {
+					docs[c.ID] = append(docs[c.ID], mustJV(t))
 				}
-				continue
-			}
-			stats["cases"]++
-			fmt.Fprintf(out, "defschemas %s.js %s\tok\tok\n", c.ID, virSchemas(irJS))
-			jsText, oaText := c.EmittedJSONSchema(), c.EmittedOpenAPI()
-			vjs := c12VerdictJSONSchema(irJS, schema, jsText)
-			fmt.Fprintf(out, "jsemit %s.js %s js\tok %s\t%s\n", c.ID, c.ID, c12Compact(jsText), vjs)
-			fmt.Fprintf(out, "jsemit %s.js %s oa\tok %s\t%s\n", c.ID, c.ID, c12Compact(oaText), c12VerdictOpenAPI(irJS, schema, oaText))
-			emitted, _ := parseJV(jsText)
-			refsOK := len(c12Unresolved(emitted, false)) == 0
-			defs, _ := c12Definitions(emitted, false)
-			present := true
-			schema.Objects.Iterate(func(_ string, o ast.Object) {
-				if _, ok := defs.get(o.Name); !ok {
-					present = false
-				}
-			})
-			fmt.Fprintf(out, "jswf %s.js %s\trefs=%v present=%v\tok\n", c.ID, c.ID, refsOK, present)
-			if !c.GoOK {
-				fmt.Fprintf(out, "-\tskip %s gocompile %s\tok\n", c.ID, labOneLine(c.GoCompileErr))
-				continue
-			}
-			fmt.Fprintf(out, "defschemas %s.go %s\tok\tok\n", c.ID, virSchemas(c.IRGo))
-			src, srcErr := c.RefValidator("")
-			ev, evErr := newRefValidator("jsonschema", string(jsText), c.Defs.Root)
-			for _, d := range b.docs[c.ID] {
-				dec := rep[ri]
-				ri++
-				if srcErr != nil || src.validate(d) != nil {
-					stats["doc-not-source-valid"]++
-					continue
-				}
-				if !strings.HasPrefix(dec, "ok ") {
-					stats["dec-error"]++ // C01's business
-					continue
-				}
-				got, perr := parseJV([]byte(strings.TrimPrefix(dec, "ok ")))
-				if perr != nil {
-					stats["reenc-invalid-json"]++
-					continue
-				}
-				stats["values"]++
-				impl, verdict := "valid", "ok"
-				if evErr != nil {
-					impl, verdict = "invalid", "FAIL emitted-schema-does-not-compile case="+c.ID+" "+shortErr(evErr)
-				} else if verr := ev.validate(got); verr != nil {
-					impl = "invalid"
-					ex := c12Explain(verr, emitted, got)
-					at := ""
-					if i := strings.Index(ex, " at="); i >= 0 {
-						at = strings.Fields(ex[i+4:])[0]
-					}
-					verdict = fmt.Sprintf("FAIL encoded-value-rejected format=%s src=%s %s case=%s", c.Format, c12SrcAt(c.Defs, at), ex, c.ID)
-					stats["values-rejected"]++
-				}
-				fmt.Fprintf(out, "jsvalid %s.js %s %s %s\t%s\t%s\n", c.ID, c.ID, c.Defs.Root, got.sexp(), impl, verdict)
-				fmt.Fprintf(out, "jshyp %s.go %s.js %s %s %s\tvalid=%v\tok\n", c.ID, c.ID, c.ID, c.Defs.Root, d.sexp(), impl == "valid")
+				fmt.Fprintf(out, "-\tpinned %s %s %s\tok\n", p.id, c.ID, f)
 			}
 		}
-		fmt.Fprintf(out, "-\tstats %v timings=%s constructs=%v docvariants=%v\tok\n", stats, fmtTimings(b.lab.Timings), b.hist, b.dhist)
+		if err := lab.Build(); err != nil {
+			return err
+		}
+		stats := map[string]int{}
+		c12LabRows(out, lab, cases, docs, stats)
+		fmt.Fprintf(out, "-\tstats %v\tok\n", stats)
 		return nil
 	})
 }
